@@ -1,3 +1,1382 @@
-//! C12 harnesses (see /verif/DESIGN.md section 5).
+//! C12 - extension header chain bookkeeping is self consistent (DESIGN.md section 5).
+//!
+//! Subject: the five walkers over the six optional IPv6 extension headers
+//! (`Ipv6Extensions::{set_next_headers, next_header, write, header_len, from_slice}`), their IPv4
+//! counterparts (`Ipv4Extensions`, one optional authentication header) and the `IpHeaders` /
+//! `NetHeaders` wrappers.
+//!
+//! Oracle: a chain is plain data (`Spec`: presence, link byte, a content tag per header). The
+//! reference walk `ref_walk` follows the `next_header` links as a linked list, written from
+//! RFC 8200 4 / 4.1 and the documented conventions of the struct (each header at most once,
+//! hop-by-hop only directly behind the IPv6 header, destination options in front of the routing
+//! header -> `destination_options`, behind it -> `final_destination_options`, a number that
+//! names no remaining header ends the walk). The reference serialisation is written from the
+//! wire formats (RFC 8200 4.3-4.6, RFC 4302 2). No constant of etherparse is used.
+//!
+//! Sizes: raw headers carry 6 payload bytes (8 byte header, first payload byte symbolic), the
+//! authentication header a 4 byte ICV (16 bytes, first ICV byte symbolic) - contents do not
+//! take part in the link bookkeeping, the symbolic tags only make the headers distinguishable.
+//!
+//! Stubs (DESIGN 2.5): in the harnesses that run `write` with *symbolic links* the serialisers
+//! `Ipv6RawExtHeader::to_bytes` and `IpAuthHeader::to_bytes` are replaced by models that return
+//! the wire image for exactly the sizes used here (other sizes fail an assertion in the model).
+//! `IpAuthHeader::to_bytes` has a fixed 1016 trip loop, i.e. needs unwind >= 1017, which is
+//! incompatible with the walker loop whose exit is symbolic. `c12_stub_raw_to_bytes` and
+//! `c12_stub_auth_to_bytes` decide model == real function on that value set; the harnesses with
+//! real serialisers run in `c12_v6_write_verdict_noauth_real` (no authentication header) and `c12_v4_chain`.
 
-crate::harnesses! {}
+use crate::sym::{any, assume};
+use crate::witness;
+use arrayvec::ArrayVec;
+use etherparse::err::ipv4_exts::ExtsWalkError as Walk4Err;
+use etherparse::err::ipv6_exts::ExtsWalkError as Walk6Err;
+use etherparse::*;
+use std::io;
+
+// ------------------------------------------------------------------------------------------
+// switches for confirmed defects of etherparse (HARNESS_GUIDE rule 7)
+// ------------------------------------------------------------------------------------------
+
+/// Found by these harnesses, repaired in /repo by 522105f: `Ipv6Extensions::write(_, first = 0)`
+/// without a hop-by-hop header panicked (`self.hop_by_hop_options.as_ref().unwrap()` in
+/// `write_internal`, e.g. `Ipv6Extensions::default().write(&mut w, IpNumber(0))`) while
+/// `next_header(0)` walked the same input without panicking.
+/// `false` (now): the case `first == 0 && hop_by_hop_options.is_none()` is asserted like every
+/// other one (write Ok <=> next_header Ok, no panic).
+/// `true` (only for a tree without the repair; a panic cannot be observed without failing, so the
+/// predicate is on the input): exactly that case goes to the `KF:` witness and `write` is not called.
+const KF_WRITE_FIRST_HBH_ABSENT: bool = false;
+
+// ------------------------------------------------------------------------------------------
+// protocol numbers (IANA "Assigned Internet Protocol Numbers"), ether types (IEEE 802)
+// ------------------------------------------------------------------------------------------
+
+const N_HBH: u8 = 0;
+const N_ROUTE: u8 = 43;
+const N_FRAG: u8 = 44;
+const N_AUTH: u8 = 51;
+const N_DEST: u8 = 60;
+const ET_IPV4: u16 = 0x0800;
+const ET_IPV6: u16 = 0x86dd;
+
+/// IANA registry "IPv6 Extension Header Types": a final protocol number is none of these
+fn is_ext_number(n: u8) -> bool {
+    matches!(n, 0 | 43 | 44 | 50 | 51 | 60 | 135 | 139 | 140 | 253 | 254)
+}
+
+/// the numbers `Ipv6Extensions` can hold (the decoder continues behind these)
+fn is_chain_number(n: u8) -> bool {
+    matches!(n, 0 | 43 | 44 | 51 | 60)
+}
+
+/// `for $k in 0..6 { body }`, unrolled by hand: the harness side must not add loops, the unwind
+/// bound of each harness is the one of the walker under test (HARNESS_GUIDE rule 2)
+macro_rules! each6 {
+    ($k:ident => $body:block) => {{
+        { let $k: usize = 0; $body }
+        { let $k: usize = 1; $body }
+        { let $k: usize = 2; $body }
+        { let $k: usize = 3; $body }
+        { let $k: usize = 4; $body }
+        { let $k: usize = 5; $body }
+    }};
+}
+
+// ------------------------------------------------------------------------------------------
+// test doubles
+// ------------------------------------------------------------------------------------------
+
+/// capturing writer: appends everything into a fixed array (copy_from_slice only), never fails
+pub struct Cap<const N: usize> {
+    pub buf: [u8; N],
+    pub len: usize,
+    pub overflow: bool,
+}
+
+impl<const N: usize> Cap<N> {
+    pub fn new() -> Self {
+        Cap { buf: [0u8; N], len: 0, overflow: false }
+    }
+    #[inline]
+    fn put(&mut self, data: &[u8]) {
+        let n = data.len();
+        if n > N - self.len {
+            self.overflow = true;
+            return;
+        }
+        self.buf[self.len..self.len + n].copy_from_slice(data);
+        self.len += n;
+    }
+}
+
+impl<const N: usize> io::Write for Cap<N> {
+    #[inline]
+    fn write(&mut self, data: &[u8]) -> io::Result<usize> {
+        self.put(data);
+        Ok(data.len())
+    }
+    #[inline]
+    fn write_all(&mut self, data: &[u8]) -> io::Result<()> {
+        self.put(data);
+        Ok(())
+    }
+    #[inline]
+    fn flush(&mut self) -> io::Result<()> {
+        Ok(())
+    }
+}
+
+/// counting writer: only the number of bytes, never fails
+pub struct Count {
+    pub len: usize,
+}
+
+impl io::Write for Count {
+    #[inline]
+    fn write(&mut self, data: &[u8]) -> io::Result<usize> {
+        self.len += data.len();
+        Ok(data.len())
+    }
+    #[inline]
+    fn write_all(&mut self, data: &[u8]) -> io::Result<()> {
+        self.len += data.len();
+        Ok(())
+    }
+    #[inline]
+    fn flush(&mut self) -> io::Result<()> {
+        Ok(())
+    }
+}
+
+/// capturing writer in 8 byte words (the walkers emit one header per call, every header is a
+/// multiple of 8 bytes): no copy of symbolic length to a symbolic offset, which CBMC cannot
+/// afford here. Chunks of 0 / 8 / 16 / 40 bytes are recorded, anything else sets `bad` (a limit of
+/// this test double, asserted not to happen), never fails.
+pub struct WordCap<const W: usize> {
+    pub words: [u64; W],
+    pub n: usize,
+    pub bad: bool,
+}
+
+impl<const W: usize> WordCap<W> {
+    pub fn new() -> Self {
+        WordCap { words: [0u64; W], n: 0, bad: false }
+    }
+    #[inline]
+    fn put(&mut self, data: &[u8]) {
+        let k = match data.len() {
+            0 => 0,
+            8 => 1,
+            16 => 2,
+            40 => 5,
+            _ => {
+                self.bad = true;
+                return;
+            }
+        };
+        if k > W - self.n {
+            self.bad = true;
+            return;
+        }
+        if k >= 1 {
+            self.words[self.n] = w64(data, 0);
+        }
+        if k >= 2 {
+            self.words[self.n + 1] = w64(data, 8);
+        }
+        if k >= 5 {
+            self.words[self.n + 2] = w64(data, 16);
+            self.words[self.n + 3] = w64(data, 24);
+            self.words[self.n + 4] = w64(data, 32);
+        }
+        self.n += k;
+    }
+}
+
+impl<const W: usize> io::Write for WordCap<W> {
+    #[inline]
+    fn write(&mut self, data: &[u8]) -> io::Result<usize> {
+        self.put(data);
+        Ok(data.len())
+    }
+    #[inline]
+    fn write_all(&mut self, data: &[u8]) -> io::Result<()> {
+        self.put(data);
+        Ok(())
+    }
+    #[inline]
+    fn flush(&mut self) -> io::Result<()> {
+        Ok(())
+    }
+}
+
+/// counting writer that also keeps the size and the first 8 bytes of the first chunk
+pub struct HeadCount {
+    pub len: usize,
+    pub calls: usize,
+    pub first_len: usize,
+    pub first_word: u64,
+}
+
+impl HeadCount {
+    #[inline]
+    fn put(&mut self, data: &[u8]) {
+        if self.calls == 0 {
+            self.first_len = data.len();
+            if data.len() >= 8 {
+                self.first_word = w64(data, 0);
+            }
+        }
+        self.calls += 1;
+        self.len += data.len();
+    }
+}
+
+impl io::Write for HeadCount {
+    #[inline]
+    fn write(&mut self, data: &[u8]) -> io::Result<usize> {
+        self.put(data);
+        Ok(data.len())
+    }
+    #[inline]
+    fn write_all(&mut self, data: &[u8]) -> io::Result<()> {
+        self.put(data);
+        Ok(())
+    }
+    #[inline]
+    fn flush(&mut self) -> io::Result<()> {
+        Ok(())
+    }
+}
+
+/// big endian word at offset i
+fn w64(a: &[u8], i: usize) -> u64 {
+    u64::from_be_bytes([a[i], a[i + 1], a[i + 2], a[i + 3], a[i + 4], a[i + 5], a[i + 6], a[i + 7]])
+}
+
+// ------------------------------------------------------------------------------------------
+// chain description (plain data) and the value built from it
+// ------------------------------------------------------------------------------------------
+
+/// slots in the order recommended by RFC 8200 4.1: hop-by-hop, destination options, routing,
+/// fragment, authentication, (ESP: not representable), destination options (final)
+const S_HBH: usize = 0;
+const S_DEST: usize = 1;
+const S_ROUTE: usize = 2;
+const S_FRAG: usize = 3;
+const S_AUTH: usize = 4;
+const S_FDEST: usize = 5;
+/// protocol number that announces the header of a slot
+const SLOT_NUM: [u8; 6] = [N_HBH, N_DEST, N_ROUTE, N_FRAG, N_AUTH, N_DEST];
+/// wire size of the header of a slot at the sizes used here
+const SLOT_LEN: [usize; 6] = [8, 8, 8, 8, 16, 8];
+/// all headers present: 5 * 8 + 16
+const MAX_BYTES: usize = 56;
+
+#[derive(Clone, Copy)]
+pub struct Spec {
+    present: [bool; 6],
+    /// the `next_header` field of each header
+    link: [u8; 6],
+    /// raw headers: first payload byte, authentication header: first ICV byte
+    tag: [u8; 6],
+    frag_off: u16,
+    frag_mf: bool,
+    frag_id: u32,
+    spi: u32,
+    seq: u32,
+}
+
+/// every structurally possible presence pattern (final destination options live inside the
+/// routing member, so they need a routing header): 48 of the 64 patterns
+fn presence_any() -> u8 {
+    let p: u8 = any();
+    assume(p < 64);
+    assume(p & (1 << S_FDEST) == 0 || p & (1 << S_ROUTE) != 0);
+    p
+}
+
+/// chain with the given presence pattern, everything else symbolic
+fn spec(p: u8) -> Spec {
+    let off: u16 = any();
+    assume(off < (1 << 13));
+    Spec {
+        present: [p & 1 != 0, p & 2 != 0, p & 4 != 0, p & 8 != 0, p & 16 != 0, p & 32 != 0],
+        link: any(),
+        tag: any(),
+        frag_off: off,
+        frag_mf: any(),
+        frag_id: any(),
+        spi: any(),
+        seq: any(),
+    }
+}
+
+fn raw(nh: u8, tag: u8) -> Ipv6RawExtHeader {
+    match Ipv6RawExtHeader::new_raw(IpNumber(nh), &[tag, 0, 0, 0, 0, 0]) {
+        Ok(h) => h,
+        Err(_) => panic!("6 byte payload is documented as valid"),
+    }
+}
+
+fn frag_header(s: &Spec) -> Ipv6FragmentHeader {
+    let off = match IpFragOffset::try_new(s.frag_off) {
+        Ok(o) => o,
+        Err(_) => panic!("13 bit offset is documented as valid"),
+    };
+    Ipv6FragmentHeader::new(IpNumber(s.link[S_FRAG]), off, s.frag_mf, s.frag_id)
+}
+
+fn auth_header(nh: u8, spi: u32, seq: u32, tag: u8) -> IpAuthHeader {
+    match IpAuthHeader::new(IpNumber(nh), spi, seq, &[tag, 0, 0, 0]) {
+        Ok(h) => h,
+        Err(_) => panic!("4 byte ICV is documented as valid"),
+    }
+}
+
+fn build(s: &Spec) -> Ipv6Extensions {
+    Ipv6Extensions {
+        hop_by_hop_options: if s.present[S_HBH] { Some(raw(s.link[S_HBH], s.tag[S_HBH])) } else { None },
+        destination_options: if s.present[S_DEST] { Some(raw(s.link[S_DEST], s.tag[S_DEST])) } else { None },
+        routing: if s.present[S_ROUTE] {
+            Some(Ipv6RoutingExtensions {
+                routing: raw(s.link[S_ROUTE], s.tag[S_ROUTE]),
+                final_destination_options: if s.present[S_FDEST] {
+                    Some(raw(s.link[S_FDEST], s.tag[S_FDEST]))
+                } else {
+                    None
+                },
+            })
+        } else {
+            None
+        },
+        fragment: if s.present[S_FRAG] { Some(frag_header(s)) } else { None },
+        auth: if s.present[S_AUTH] {
+            Some(auth_header(s.link[S_AUTH], s.spi, s.seq, s.tag[S_AUTH]))
+        } else {
+            None
+        },
+    }
+}
+
+/// presence and link of every slot as the value holds them
+fn links_of(v: &Ipv6Extensions) -> [Option<u8>; 6] {
+    [
+        v.hop_by_hop_options.as_ref().map(|h| h.next_header.0),
+        v.destination_options.as_ref().map(|h| h.next_header.0),
+        v.routing.as_ref().map(|r| r.routing.next_header.0),
+        v.fragment.as_ref().map(|h| h.next_header.0),
+        v.auth.as_ref().map(|h| h.next_header.0),
+        match v.routing.as_ref() {
+            Some(r) => r.final_destination_options.as_ref().map(|h| h.next_header.0),
+            None => None,
+        },
+    ]
+}
+
+/// raw member == the one described by slot k of `s` (field by field, no slice comparison loop)
+fn raw_is(h: Option<&Ipv6RawExtHeader>, s: &Spec, k: usize) -> bool {
+    match h {
+        None => !s.present[k],
+        Some(h) => {
+            let p = h.payload();
+            s.present[k]
+                && h.next_header.0 == s.link[k]
+                && h.header_len() == 8
+                && p.len() == 6
+                && p[0] == s.tag[k]
+                && p[1] == 0
+                && p[2] == 0
+                && p[3] == 0
+                && p[4] == 0
+                && p[5] == 0
+        }
+    }
+}
+
+/// the value holds exactly the members described by `s` (presence, links, contents): nothing
+/// added, nothing dropped, nothing swapped
+fn same_set(v: &Ipv6Extensions, s: &Spec) -> bool {
+    let frag = match v.fragment.as_ref() {
+        None => !s.present[S_FRAG],
+        Some(f) => {
+            s.present[S_FRAG]
+                && f.next_header.0 == s.link[S_FRAG]
+                && f.fragment_offset.value() == s.frag_off
+                && f.more_fragments == s.frag_mf
+                && f.identification == s.frag_id
+        }
+    };
+    let auth = match v.auth.as_ref() {
+        None => !s.present[S_AUTH],
+        Some(a) => {
+            let i = a.raw_icv();
+            s.present[S_AUTH]
+                && a.next_header.0 == s.link[S_AUTH]
+                && a.spi == s.spi
+                && a.sequence_number == s.seq
+                && a.header_len() == 16
+                && i.len() == 4
+                && i[0] == s.tag[S_AUTH]
+                && i[1] == 0
+                && i[2] == 0
+                && i[3] == 0
+        }
+    };
+    let fdest = match v.routing.as_ref() {
+        None => !s.present[S_FDEST],
+        Some(r) => raw_is(r.final_destination_options.as_ref(), s, S_FDEST),
+    };
+    raw_is(v.hop_by_hop_options.as_ref(), s, S_HBH)
+        && raw_is(v.destination_options.as_ref(), s, S_DEST)
+        && raw_is(v.routing.as_ref().map(|r| &r.routing), s, S_ROUTE)
+        && frag
+        && auth
+        && fdest
+}
+
+fn total_len(s: &Spec) -> usize {
+    let mut n = 0;
+    each6!(k => {
+        if s.present[k] {
+            n += SLOT_LEN[k];
+        }
+    });
+    n
+}
+
+// ------------------------------------------------------------------------------------------
+// reference walk: the chain as a linked list
+// ------------------------------------------------------------------------------------------
+
+pub struct Walk {
+    /// slots in the order they are reached
+    order: [usize; 6],
+    n: usize,
+    /// number at which the walk stops (names no remaining header)
+    end: u8,
+    /// the link 0 was met behind the first position while a hop-by-hop header is still waiting
+    misplaced_hbh: bool,
+    used: [bool; 6],
+}
+
+fn ref_walk(s: &Spec, first: u8) -> Walk {
+    let mut w = Walk { order: [6; 6], n: 0, end: first, misplaced_hbh: false, used: [false; 6] };
+    let mut next = first;
+    // RFC 8200 4.3: the hop-by-hop header directly follows the IPv6 header (and only there)
+    if next == N_HBH && s.present[S_HBH] {
+        w.order[0] = S_HBH;
+        w.n = 1;
+        w.used[S_HBH] = true;
+        next = s.link[S_HBH];
+    }
+    // at most 5 further headers, then the stop
+    let mut done = false;
+    each6!(_step => {
+        if !done {
+            let slot = match next {
+                N_HBH => {
+                    if s.present[S_HBH] && !w.used[S_HBH] {
+                        w.misplaced_hbh = true;
+                    }
+                    None
+                }
+                N_DEST => Some(if w.used[S_ROUTE] { S_FDEST } else { S_DEST }),
+                N_ROUTE => Some(S_ROUTE),
+                N_FRAG => Some(S_FRAG),
+                N_AUTH => Some(S_AUTH),
+                _ => None,
+            };
+            match slot {
+                Some(k) if s.present[k] && !w.used[k] => {
+                    w.order[w.n] = k;
+                    w.n += 1;
+                    w.used[k] = true;
+                    next = s.link[k];
+                }
+                _ => done = true,
+            }
+        }
+    });
+    assert!(done, "six steps always reach the stop: 5 headers can follow, the 6th step stops");
+    w.end = next;
+    w
+}
+
+fn unreferenced(s: &Spec, w: &Walk, k: usize) -> bool {
+    s.present[k] && !w.used[k]
+}
+
+fn any_unreferenced(s: &Spec, w: &Walk) -> bool {
+    let mut r = false;
+    each6!(k => {
+        r |= unreferenced(s, w, k);
+    });
+    r
+}
+
+/// every header reached exactly once, hop-by-hop (if any) first
+fn consistent(s: &Spec, w: &Walk) -> bool {
+    !w.misplaced_hbh && !any_unreferenced(s, w)
+}
+
+/// The verdict of a walker is truthful: Ok(final number) exactly for consistent chains, an
+/// error names a fault the chain really has (where several headers are unreferenced the
+/// documentation does not rank them: any of them is accepted).
+fn judge(r: &Result<u8, Walk6Err>, s: &Spec, w: &Walk) {
+    match r {
+        Ok(x) => {
+            assert!(consistent(s, w));
+            assert!(*x == w.end);
+        }
+        Err(Walk6Err::HopByHopNotAtStart) => assert!(w.misplaced_hbh),
+        Err(Walk6Err::ExtNotReferenced { missing_ext }) => {
+            let mut named = false;
+            each6!(k => {
+                named |= unreferenced(s, w, k) && SLOT_NUM[k] == missing_ext.0;
+            });
+            assert!(named);
+        }
+    }
+}
+
+// ------------------------------------------------------------------------------------------
+// reference serialisation (in 8 byte words: every extension header is a multiple of 8 bytes,
+// RFC 8200 4)
+// ------------------------------------------------------------------------------------------
+
+/// all headers present: 5 * 1 + 2 words
+const MAX_WORDS: usize = 7;
+
+/// wire image of the header in slot k: first 8 bytes, and bytes 8..16 of the authentication header
+fn ref_words(s: &Spec, k: usize) -> (u64, u64) {
+    let nh = s.link[k];
+    if k == S_FRAG {
+        // RFC 8200 4.5: next header, reserved, offset (13 bit) res (2 bit) M, identification
+        let id = s.frag_id.to_be_bytes();
+        let b2 = (s.frag_off >> 5) as u8;
+        let b3 = (((s.frag_off & 0x1f) as u8) << 3) | (s.frag_mf as u8);
+        (u64::from_be_bytes([nh, 0, b2, b3, id[0], id[1], id[2], id[3]]), 0)
+    } else if k == S_AUTH {
+        // RFC 4302 2: next header, payload len = 32 bit words - 2 (16 bytes -> 2), reserved, SPI, sequence, ICV
+        let p = s.spi.to_be_bytes();
+        let q = s.seq.to_be_bytes();
+        (
+            u64::from_be_bytes([nh, 2, 0, 0, p[0], p[1], p[2], p[3]]),
+            u64::from_be_bytes([q[0], q[1], q[2], q[3], s.tag[k], 0, 0, 0]),
+        )
+    } else {
+        // RFC 8200 4.3 / 4.4 / 4.6: next header, hdr ext len = 8 byte units - 1, data
+        (u64::from_be_bytes([nh, 0, s.tag[k], 0, 0, 0, 0, 0]), 0)
+    }
+}
+
+/// the chain in walk order, as words and their number
+fn ref_image(s: &Spec, w: &Walk) -> ([u64; MAX_WORDS], usize) {
+    let mut b = [0u64; MAX_WORDS];
+    let mut pos = 0;
+    each6!(i => {
+        if i < w.n {
+            let k = w.order[i];
+            let (a, c) = ref_words(s, k);
+            b[pos] = a;
+            pos += 1;
+            if k == S_AUTH {
+                b[pos] = c;
+                pos += 1;
+            }
+        }
+    });
+    (b, pos)
+}
+
+/// the chain in walk order as bytes
+fn ref_bytes(s: &Spec, w: &Walk) -> ([u8; MAX_BYTES], usize) {
+    let (img, n) = ref_image(s, w);
+    let mut b = [0u8; MAX_BYTES];
+    b[0..8].copy_from_slice(&img[0].to_be_bytes());
+    b[8..16].copy_from_slice(&img[1].to_be_bytes());
+    b[16..24].copy_from_slice(&img[2].to_be_bytes());
+    b[24..32].copy_from_slice(&img[3].to_be_bytes());
+    b[32..40].copy_from_slice(&img[4].to_be_bytes());
+    b[40..48].copy_from_slice(&img[5].to_be_bytes());
+    b[48..56].copy_from_slice(&img[6].to_be_bytes());
+    (b, n * 8)
+}
+
+/// `got[..n]` is the chain in walk order
+fn words_match(got: &[u64], n: usize, s: &Spec, w: &Walk) -> bool {
+    let (img, m) = ref_image(s, w);
+    let mut ok = n == m;
+    let mut i = 0;
+    // MAX_WORDS = 7 comparisons, unrolled
+    each6!(_k => {
+        ok &= i >= m || got[i] == img[i];
+        i += 1;
+    });
+    ok &= i >= m || got[i] == img[i];
+    ok
+}
+
+// ------------------------------------------------------------------------------------------
+// models of the two big serialisers (DESIGN 2.5) and their justification
+// ------------------------------------------------------------------------------------------
+
+fn raw_to_bytes_model(h: &Ipv6RawExtHeader) -> ArrayVec<u8, { Ipv6RawExtHeader::MAX_LEN }> {
+    let p = h.payload();
+    assert!(p.len() == 6, "model of Ipv6RawExtHeader::to_bytes is exact for 6 byte payloads only");
+    let mut r = ArrayVec::new();
+    let ok = r.try_extend_from_slice(&[h.next_header.0, 0, p[0], p[1], p[2], p[3], p[4], p[5]]);
+    assert!(ok.is_ok());
+    r
+}
+
+// (`to_bytes` lives in `impl<'a> IpAuthHeader`: Kani wants the same number of generic parameters)
+fn auth_to_bytes_model<'a>(h: &IpAuthHeader) -> ArrayVec<u8, { IpAuthHeader::MAX_LEN }>
+where
+    'a: 'a, // makes the parameter early bound, i.e. counted
+{
+    let i = h.raw_icv();
+    assert!(i.len() == 4, "model of IpAuthHeader::to_bytes is exact for 4 byte ICVs only");
+    let p = h.spi.to_be_bytes();
+    let q = h.sequence_number.to_be_bytes();
+    let mut r = ArrayVec::new();
+    let ok = r.try_extend_from_slice(&[
+        h.next_header.0, 2, 0, 0, p[0], p[1], p[2], p[3], q[0], q[1], q[2], q[3], i[0], i[1], i[2], i[3],
+    ]);
+    assert!(ok.is_ok());
+    r
+}
+
+/// model == real `Ipv6RawExtHeader::to_bytes` on the value set used in this module
+pub fn stub_raw_to_bytes() {
+    let h = raw(any(), any());
+    let real = h.to_bytes();
+    let model = raw_to_bytes_model(&h);
+    assert!(real.len() == 8 && model.len() == 8);
+    assert!(w64(&real, 0) == w64(&model, 0));
+    assert!(h.header_len() == 8);
+}
+
+/// model == real `IpAuthHeader::to_bytes` on the value set used in this module
+pub fn stub_auth_to_bytes() {
+    let h = auth_header(any(), any(), any(), any());
+    let real = h.to_bytes();
+    let model = auth_to_bytes_model(&h);
+    assert!(real.len() == 16 && model.len() == 16);
+    assert!(w64(&real, 0) == w64(&model, 0));
+    assert!(w64(&real, 8) == w64(&model, 8));
+    assert!(h.header_len() == 16);
+}
+
+// ------------------------------------------------------------------------------------------
+// IPv6: set_next_headers links in RFC 8200 order and the chain walks to n
+// ------------------------------------------------------------------------------------------
+
+/// all 48 presence patterns, arbitrary stale links, every final number that is no extension header
+pub fn v6_link_order() {
+    let s = spec(presence_any());
+    let n: u8 = any();
+    assume(!is_ext_number(n));
+    let w = check_link_order(&s, n);
+    witness!(w.n == 6, "all_six_present");
+    witness!(w.n == 0, "empty_set_returns_n");
+    witness!(s.present[S_DEST] && !s.present[S_ROUTE], "dest_without_routing");
+    witness!(s.present[S_FDEST] && !s.present[S_DEST], "final_dest_only");
+}
+
+fn check_link_order(s: &Spec, n: u8) -> Walk {
+    let s = *s;
+    let mut v = build(&s);
+    let first = v.set_next_headers(IpNumber(n));
+
+    // reference: every present header links to the next present one in RFC 8200 4.1 order,
+    // the last one to n; the returned number announces the first present header
+    let mut expect = n;
+    let mut linked = s;
+    each6!(i => {
+        let k = 5 - i;
+        if s.present[k] {
+            linked.link[k] = expect;
+            expect = SLOT_NUM[k];
+        }
+    });
+    assert!(first.0 == expect);
+    // exactly the expected links, nothing else changed, nothing added or dropped
+    assert!(same_set(&v, &linked));
+
+    // the reference walk over these links visits the headers in slot (= RFC) order and ends at n
+    let w = ref_walk(&linked, first.0);
+    assert!(consistent(&linked, &w));
+    assert!(w.end == n);
+    let mut prev = 0;
+    each6!(i => {
+        if i < w.n {
+            assert!(i == 0 || w.order[i] > prev);
+            prev = w.order[i];
+        }
+    });
+    // ... and so does the crate's walker
+    assert!(v.next_header(first) == Ok(IpNumber(n)));
+    assert!(v.header_len() == total_len(&s));
+    assert!(v.is_empty() == (w.n == 0));
+    assert!(w.n != 0 || first.0 == n);
+    w
+}
+
+// ------------------------------------------------------------------------------------------
+// IPv6: next_header / header_len / is_fragmenting_payload on arbitrary chains
+// ------------------------------------------------------------------------------------------
+
+/// all presence patterns x arbitrary links x every first number: the verdict of `next_header`
+/// is the one of the reference walk
+fn check_walk(s: &Spec, first: u8) -> Result<u8, Walk6Err> {
+    let v = build(s);
+    let w = ref_walk(s, first);
+    let r = v.next_header(IpNumber(first)).map(|x| x.0);
+    judge(&r, s, &w);
+    assert!(v.header_len() == total_len(s));
+    // RFC 8200 4.5: offset 0 and M = 0 is an unfragmented ("atomic") packet
+    assert!(v.is_fragmenting_payload() == (s.present[S_FRAG] && (s.frag_off != 0 || s.frag_mf)));
+    r
+}
+
+pub fn v6_walk_any() {
+    let s = spec(presence_any());
+    let first: u8 = any();
+    let r = check_walk(&s, first);
+    let w = ref_walk(&s, first);
+
+    witness!(r.is_ok() && w.n == 6, "ok_all_six");
+    witness!(r.is_ok() && w.n >= 3 && w.order[0] == S_AUTH, "ok_non_rfc_order");
+    witness!(r.is_ok() && is_chain_number(w.end) && w.n > 0, "ok_ends_on_consumed_number");
+    witness!(r == Ok(0) && first == 0 && !s.present[S_HBH], "ok_first_0_without_hbh");
+    witness!(matches!(r, Err(Walk6Err::HopByHopNotAtStart)), "err_hbh_not_at_start");
+    witness!(matches!(r, Err(Walk6Err::ExtNotReferenced { missing_ext }) if missing_ext.0 == N_HBH), "err_unref_hbh");
+    witness!(
+        matches!(r, Err(Walk6Err::ExtNotReferenced { missing_ext }) if missing_ext.0 == N_DEST) && w.used[S_DEST],
+        "err_unref_final_dest"
+    );
+    witness!(matches!(r, Err(Walk6Err::ExtNotReferenced { missing_ext }) if missing_ext.0 == N_AUTH), "err_unref_auth");
+    witness!(s.present[S_FRAG] && s.frag_off == 0 && !s.frag_mf, "atomic_fragment");
+}
+
+// ------------------------------------------------------------------------------------------
+// IPv6: write
+// ------------------------------------------------------------------------------------------
+
+/// `write` on the chain `s` started at `first`: succeeds exactly when the reference walk is
+/// consistent, errors are truthful, on success exactly `header_len()` bytes = every present
+/// header once, in walk order
+fn run_write<W: io::Write>(v: &Ipv6Extensions, out: &mut W, first: u8, w: &Walk) -> Result<u8, Walk6Err> {
+    match v.write(out, IpNumber(first)) {
+        Ok(()) => Ok(w.end),
+        Err(err::ipv6_exts::HeaderWriteError::Content(e)) => Err(e),
+        Err(e) => {
+            core::mem::forget(e);
+            panic!("the writer never fails")
+        }
+    }
+}
+
+/// see KF_WRITE_FIRST_HBH_ABSENT (off since /repo 522105f). Returns true if the case was routed to the witness.
+fn kf_write_first_hbh_absent(s: &Spec, first: u8) -> bool {
+    if KF_WRITE_FIRST_HBH_ABSENT && first == N_HBH && !s.present[S_HBH] {
+        witness!(true, "KF:c12-ipv6-exts-write-first-hbh-absent");
+        return true;
+    }
+    false
+}
+
+/// VERDICT and LENGTH of `write` (counting writer): same verdict as the reference walk and as
+/// `next_header`, errors truthful, on success exactly the bytes of all present headers
+fn check_write_verdict(s: &Spec, first: u8) {
+    let v = build(s);
+    let w = ref_walk(s, first);
+    if kf_write_first_hbh_absent(s, first) {
+        return;
+    }
+    let mut out = Count { len: 0 };
+    let r = run_write(&v, &mut out, first, &w);
+    judge(&r, s, &w);
+    assert!(r.is_ok() == v.next_header(IpNumber(first)).is_ok());
+    if r.is_ok() {
+        // nothing dropped, nothing twice
+        assert!(out.len == total_len(s));
+        assert!(out.len == v.header_len());
+    } else {
+        assert!(out.len < total_len(s));
+    }
+    witness!(r.is_ok() && w.n > 0, "write_ok");
+    witness!(r.is_err(), "write_err");
+}
+
+/// CONTENT of `write` (capturing writer): on success every present header once, in walk order
+fn check_write_bytes(s: &Spec, first: u8) {
+    let v = build(s);
+    let w = ref_walk(s, first);
+    if kf_write_first_hbh_absent(s, first) {
+        return;
+    }
+    let mut cap = WordCap::<MAX_WORDS>::new();
+    let r = run_write(&v, &mut cap, first, &w);
+    judge(&r, s, &w);
+    assert!(!cap.bad);
+    if r.is_ok() {
+        assert!(cap.n * 8 == total_len(s));
+        assert!(cap.n * 8 == v.header_len());
+        assert!(words_match(&cap.words, cap.n, s, &w));
+    }
+    witness!(r.is_ok() && w.n > 0, "write_ok");
+    witness!(r.is_err(), "write_err");
+}
+
+/// all 48 presence patterns, arbitrary links and first number, serialisers replaced by their models
+pub fn v6_write_verdict() {
+    let s = spec(presence_any());
+    let first: u8 = any();
+    check_write_verdict(&s, first);
+    let w = ref_walk(&s, first);
+    witness!(w.n == 6 && consistent(&s, &w), "ok_all_six");
+    witness!(w.misplaced_hbh, "err_hbh_not_at_start");
+    witness!(w.n == 5 && !w.misplaced_hbh && !consistent(&s, &w), "err_one_unreferenced");
+}
+
+/// 24 presence patterns without the authentication header, arbitrary links and first number,
+/// REAL serialisers
+pub fn v6_write_verdict_noauth_real() {
+    let p = presence_any();
+    assume(p & (1 << S_AUTH) == 0);
+    let s = spec(p);
+    let first: u8 = any();
+    check_write_verdict(&s, first);
+    let w = ref_walk(&s, first);
+    witness!(w.n == 5 && consistent(&s, &w), "ok_five");
+}
+
+/// all 48 presence patterns, arbitrary links and first number, serialisers replaced by their models
+pub fn v6_write_bytes() {
+    let s = spec(presence_any());
+    let first: u8 = any();
+    check_write_bytes(&s, first);
+    let w = ref_walk(&s, first);
+    witness!(w.n == 6 && consistent(&s, &w), "ok_all_six");
+    witness!(w.n >= 3 && w.order[0] == S_AUTH && consistent(&s, &w), "ok_non_rfc_order");
+    witness!(w.n == 2 && w.order[0] == S_ROUTE && w.order[1] == S_FDEST && consistent(&s, &w), "ok_route_final_dest");
+}
+
+// NOT decided: all six headers, links made by `set_next_headers(n)`, REAL serialisers incl.
+// `IpAuthHeader::to_bytes` (unwind 1018): passed 15 GB after 10 minutes and was dropped. The real
+// serialisers run in v6_write_verdict_noauth_real, v4_chain and the c12_stub_* equalities.
+
+// ------------------------------------------------------------------------------------------
+// IPv6: decoding the serialisation gives the set and the final number back
+// ------------------------------------------------------------------------------------------
+
+/// consistent chain `s` of at most MAXN headers that ends on a number the decoder does not
+/// continue behind: decoding its reference serialisation (= what `write` emits, see
+/// check_write_bytes) yields the same set, the final number and no rest.
+/// The decoder walk is the expensive kernel (every arm of every unrolled step builds a 2 KB
+/// header), so the chain length is bounded per harness: unwind = MAXN + 2.
+fn check_decode<const MAXN: usize>(s: &Spec, first: u8) {
+    let w = ref_walk(s, first);
+    assume(consistent(s, &w));
+    assume(!is_chain_number(w.end));
+    assume(w.n <= MAXN);
+    let (b, len) = ref_bytes(s, &w);
+    assert!(len == total_len(s));
+    match Ipv6Extensions::from_slice(IpNumber(first), &b[..len]) {
+        Ok((d, next, rest)) => {
+            assert!(next.0 == w.end);
+            assert!(rest.is_empty());
+            assert!(same_set(&d, s));
+            assert!(d.header_len() == len);
+        }
+        Err(_) => panic!("serialised chain must decode"),
+    }
+    witness!(w.n == MAXN, "max_len_chain");
+}
+
+// The decoder harnesses fix the SHAPE of the chain (which header) and leave the contents and the
+// final number symbolic. `Ipv6Extensions::from_slice` is the expensive kernel: every arm of every
+// unrolled step builds 2 KB headers with a copy of symbolic length. Measured: empty chain 100 s,
+// one header 260-300 s; symbolic presence / order with at most two headers, and the fixed shapes
+// routing -> destination options and hop-by-hop -> fragment, exceeded 20 GB. Longer chains are
+// therefore outside the decided part of the decode clause (see reg/c12.py "outside").
+
+/// chain with exactly the header `a -> n`
+fn shape1(a: usize) -> (Spec, u8) {
+    let mut s = spec(1 << a);
+    let n: u8 = any();
+    s.link[a] = n;
+    (s, SLOT_NUM[a])
+}
+
+/// hop-by-hop alone
+pub fn v6_decode_hbh() {
+    let (s, first) = shape1(S_HBH);
+    check_decode::<1>(&s, first);
+}
+
+/// destination options alone: must come back as (first) destination options
+pub fn v6_decode_dest() {
+    let (s, first) = shape1(S_DEST);
+    check_decode::<1>(&s, first);
+}
+
+/// authentication header alone
+pub fn v6_decode_auth() {
+    let (s, first) = shape1(S_AUTH);
+    check_decode::<1>(&s, first);
+}
+
+/// empty set: every first number outside 0/43/44/51/60 comes back unchanged
+pub fn v6_decode_empty() {
+    let s = spec(0);
+    let first: u8 = any();
+    check_decode::<0>(&s, first);
+}
+
+// ------------------------------------------------------------------------------------------
+// IPv4 (one optional authentication header)
+// ------------------------------------------------------------------------------------------
+
+fn v4_exts(has: bool, link: u8, spi: u32, seq: u32, tag: u8) -> Ipv4Extensions {
+    Ipv4Extensions { auth: if has { Some(auth_header(link, spi, seq, tag)) } else { None } }
+}
+
+/// reference: with an authentication header the chain is consistent iff the first number is 51
+fn v4_ref(has: bool, link: u8, first: u8) -> Result<u8, u8> {
+    if !has {
+        Ok(first)
+    } else if first == N_AUTH {
+        Ok(link)
+    } else {
+        Err(N_AUTH)
+    }
+}
+
+fn v4_judge(r: &Result<u8, Walk4Err>, expect: &Result<u8, u8>) {
+    match (r, expect) {
+        (Ok(a), Ok(b)) => assert!(a == b),
+        (Err(Walk4Err::ExtNotReferenced { missing_ext }), Err(m)) => assert!(missing_ext.0 == *m),
+        _ => panic!("walker verdict differs from the reference"),
+    }
+}
+
+/// set_next_headers / next_header / header_len / write (REAL serialiser), presence, stale
+/// link, first number, final number all symbolic
+pub fn v4_chain() {
+    let has: bool = any();
+    let link: u8 = any();
+    let first: u8 = any();
+    let (spi, seq, tag): (u32, u32, u8) = (any(), any(), any());
+    let v = v4_exts(has, link, spi, seq, tag);
+    let expect = v4_ref(has, link, first);
+
+    // arbitrary (unlinked) chain
+    let r = v.next_header(IpNumber(first)).map(|x| x.0);
+    v4_judge(&r, &expect);
+    assert!(v.header_len() == if has { 16 } else { 0 });
+    assert!(v.is_empty() == !has);
+    let mut cap = Cap::<16>::new();
+    let wr = match v.write(&mut cap, IpNumber(first)) {
+        Ok(()) => Ok(*expect.as_ref().unwrap_or(&0)),
+        Err(err::ipv4_exts::HeaderWriteError::Content(e)) => Err(e),
+        Err(e) => {
+            core::mem::forget(e);
+            panic!("the writer never fails")
+        }
+    };
+    v4_judge(&wr, &expect);
+    assert!(wr.is_ok() == r.is_ok());
+    assert!(!cap.overflow);
+    if wr.is_ok() {
+        assert!(cap.len == v.header_len());
+        if has {
+            let p = spi.to_be_bytes();
+            let q = seq.to_be_bytes();
+            assert!(w64(&cap.buf, 0) == u64::from_be_bytes([link, 2, 0, 0, p[0], p[1], p[2], p[3]]));
+            assert!(w64(&cap.buf, 8) == u64::from_be_bytes([q[0], q[1], q[2], q[3], tag, 0, 0, 0]));
+        }
+    } else {
+        assert!(cap.len == 0);
+    }
+
+    // linking: every final number that is not the IPv4 extension header
+    let n: u8 = any();
+    assume(n != N_AUTH);
+    let mut l = v.clone();
+    let f = l.set_next_headers(IpNumber(n));
+    assert!(f.0 == if has { N_AUTH } else { n });
+    assert!(l == v4_exts(has, n, spi, seq, tag));
+    assert!(l.next_header(f) == Ok(IpNumber(n)));
+
+    witness!(has && wr.is_ok(), "auth_written");
+    witness!(has && wr.is_err(), "auth_unreferenced");
+    witness!(!has && first == N_AUTH, "no_auth_first_51");
+}
+
+/// decoding the serialisation of a consistent IPv4 chain gives the set and the final number back
+pub fn v4_decode() {
+    let has: bool = any();
+    let link: u8 = any();
+    let (spi, seq, tag): (u32, u32, u8) = (any(), any(), any());
+    let v = v4_exts(has, link, spi, seq, tag);
+    // consistent chains: first number 51 iff the header is there
+    let first: u8 = any();
+    assume((first == N_AUTH) == has);
+    let p = spi.to_be_bytes();
+    let q = seq.to_be_bytes();
+    let b = [link, 2, 0, 0, p[0], p[1], p[2], p[3], q[0], q[1], q[2], q[3], tag, 0, 0, 0];
+    let len = if has { 16 } else { 0 };
+    match Ipv4Extensions::from_slice(IpNumber(first), &b[..len]) {
+        Ok((d, next, rest)) => {
+            assert!(d == v);
+            assert!(next.0 == if has { link } else { first });
+            assert!(rest.is_empty());
+        }
+        Err(_) => panic!("serialised chain must decode"),
+    }
+    witness!(has && link == N_AUTH, "auth_behind_auth_is_final");
+    witness!(!has, "empty");
+}
+
+// ------------------------------------------------------------------------------------------
+// IpHeaders / NetHeaders
+// ------------------------------------------------------------------------------------------
+
+fn ipv4_base(protocol: u8) -> Ipv4Header {
+    Ipv4Header {
+        total_len: any(),
+        identification: any(),
+        time_to_live: any(),
+        protocol: IpNumber(protocol),
+        source: any(),
+        destination: any(),
+        ..Default::default()
+    }
+}
+
+fn ipv6_base(next_header: u8) -> Ipv6Header {
+    Ipv6Header {
+        payload_length: any(),
+        next_header: IpNumber(next_header),
+        hop_limit: any(),
+        ..Default::default()
+    }
+}
+
+/// `IpHeaders::Ipv4`: next_header / header_len / write on arbitrary protocol + link, then
+/// set_next_headers: ether type, links, walk
+pub fn ip_headers_v4() {
+    let has: bool = any();
+    let link: u8 = any();
+    let first: u8 = any();
+    let (spi, seq, tag): (u32, u32, u8) = (any(), any(), any());
+    let mut h = IpHeaders::Ipv4(ipv4_base(first), v4_exts(has, link, spi, seq, tag));
+    let expect = v4_ref(has, link, first);
+    let ext_len = if has { 16 } else { 0 };
+
+    let r = match h.next_header() {
+        Ok(x) => Ok(x.0),
+        Err(err::ip_exts::ExtsWalkError::Ipv4Exts(e)) => Err(e),
+        Err(_) => panic!("IPv6 error for an IPv4 header"),
+    };
+    v4_judge(&r, &expect);
+    assert!(h.header_len() == 20 + ext_len);
+
+    let mut cap = Cap::<36>::new();
+    let wr = match h.write(&mut cap) {
+        Ok(()) => Ok(*expect.as_ref().unwrap_or(&0)),
+        Err(err::ip::HeadersWriteError::Ipv4Exts(e)) => Err(e),
+        Err(e) => {
+            core::mem::forget(e);
+            panic!("neither an I/O nor an IPv6 error is possible")
+        }
+    };
+    v4_judge(&wr, &expect);
+    assert!(!cap.overflow);
+    if wr.is_ok() {
+        assert!(cap.len == h.header_len());
+        // RFC 791 3.1: version/IHL, protocol at offset 9; the extension header follows the base header
+        assert!(cap.buf[0] == 0x45 && cap.buf[9] == first);
+        if has {
+            let p = spi.to_be_bytes();
+            assert!(w64(&cap.buf, 20) == u64::from_be_bytes([link, 2, 0, 0, p[0], p[1], p[2], p[3]]));
+        }
+    }
+
+    let n: u8 = any();
+    assume(n != N_AUTH);
+    let et = h.set_next_headers(IpNumber(n));
+    assert!(et.0 == ET_IPV4);
+    match &h {
+        IpHeaders::Ipv4(b, e) => {
+            assert!(b.protocol.0 == if has { N_AUTH } else { n });
+            assert!(*e == v4_exts(has, n, spi, seq, tag));
+        }
+        _ => panic!("IP version changed"),
+    }
+    assert!(h.next_header() == Ok(IpNumber(n)));
+    assert!(h.header_len() == 20 + ext_len);
+
+    witness!(has && wr.is_ok(), "auth_written");
+    witness!(has && wr.is_err(), "auth_unreferenced");
+}
+
+/// `IpHeaders::Ipv6` without serialisation: next_header / header_len on arbitrary chains, then
+/// set_next_headers: ether type, first number in the base header, walk to n
+pub fn ip_headers_v6() {
+    let s = spec(presence_any());
+    let first: u8 = any();
+    let mut h = IpHeaders::Ipv6(ipv6_base(first), build(&s));
+    let w = ref_walk(&s, first);
+    let r = match h.next_header() {
+        Ok(x) => Ok(x.0),
+        Err(err::ip_exts::ExtsWalkError::Ipv6Exts(e)) => Err(e),
+        Err(_) => panic!("IPv4 error for an IPv6 header"),
+    };
+    judge(&r, &s, &w);
+    assert!(h.header_len() == 40 + total_len(&s));
+    assert!(h.is_fragmenting_payload() == (s.present[S_FRAG] && (s.frag_off != 0 || s.frag_mf)));
+
+    let n: u8 = any();
+    assume(!is_ext_number(n));
+    let et = h.set_next_headers(IpNumber(n));
+    if et.0 != ET_IPV6 {
+        // known finding: the IPv6 arm returns the IPv4 ether type; anything else is still a violation
+        assert!(et.0 == ET_IPV4);
+        witness!(true, "KF:c12-ipheaders-set-next-headers-ipv6-ether-type");
+    }
+    match &h {
+        IpHeaders::Ipv6(b, e) => {
+            // first present header in RFC 8200 order, or n
+            let mut expect_first = n;
+            let mut linked = s;
+            each6!(i => {
+                if s.present[5 - i] {
+                    linked.link[5 - i] = expect_first;
+                    expect_first = SLOT_NUM[5 - i];
+                }
+            });
+            assert!(b.next_header.0 == expect_first);
+            assert!(same_set(e, &linked));
+        }
+        _ => panic!("IP version changed"),
+    }
+    assert!(h.next_header() == Ok(IpNumber(n)));
+    assert!(h.header_len() == 40 + total_len(&s));
+
+    witness!(r.is_err(), "unlinked_err");
+    witness!(w.n == 6 && r.is_ok(), "six_ok");
+}
+
+/// `IpHeaders::Ipv6::write`: base header (40 bytes, next header at offset 6) followed by the chain
+fn check_ip_headers_v6_write(p: u8) {
+    let s = spec(p);
+    let first: u8 = any();
+    let h = IpHeaders::Ipv6(ipv6_base(first), build(&s));
+    let w = ref_walk(&s, first);
+    if kf_write_first_hbh_absent(&s, first) {
+        return;
+    }
+    let mut out = HeadCount { len: 0, calls: 0, first_len: 0, first_word: 0 };
+    let r = match h.write(&mut out) {
+        Ok(()) => Ok(w.end),
+        Err(err::ip::HeadersWriteError::Ipv6Exts(e)) => Err(e),
+        Err(e) => {
+            core::mem::forget(e);
+            panic!("neither an I/O nor an IPv4 error is possible")
+        }
+    };
+    judge(&r, &s, &w);
+    // the base header comes first: 40 bytes, RFC 8200 3: version nibble, next header at offset 6
+    let w0 = out.first_word.to_be_bytes();
+    assert!(out.first_len >= 8 && w0[0] >> 4 == 6 && w0[6] == first);
+    if r.is_ok() {
+        // ... followed by the bytes of every present header (their content and order: c12_v6_write_bytes)
+        assert!(out.len == h.header_len());
+        assert!(out.len == 40 + total_len(&s));
+    }
+    witness!(r.is_ok(), "ok");
+    witness!(r.is_err() || p == 0, "err");
+}
+
+// `IpHeaders::write` with symbolic presence exceeds 20 GB (measured, also without capturing);
+// the glue (base header first, then the chain started at the base header's next header) does not
+// depend on the presence pattern, which is therefore concrete per harness; links and first number
+// stay symbolic.
+
+/// all six extension headers
+pub fn ip_headers_v6_write_full() {
+    check_ip_headers_v6_write(0b111111)
+}
+
+/// destination options, routing, final destination options, fragment (no hop-by-hop, no authentication header)
+pub fn ip_headers_v6_write_mid() {
+    check_ip_headers_v6_write(0b101110)
+}
+
+/// no extension header
+pub fn ip_headers_v6_write_none() {
+    check_ip_headers_v6_write(0)
+}
+
+/// `NetHeaders::try_set_next_headers`: ether type of the IP version, first number in the base
+/// header, chain walks to n; ARP is refused
+pub fn net_headers() {
+    let n: u8 = any();
+    let which: u8 = any();
+    assume(which < 3);
+    if which == 0 {
+        assume(n != N_AUTH);
+        let has: bool = any();
+        let (spi, seq, tag): (u32, u32, u8) = (any(), any(), any());
+        let mut h = NetHeaders::Ipv4(ipv4_base(any()), v4_exts(has, any(), spi, seq, tag));
+        let r = h.try_set_next_headers(IpNumber(n));
+        assert!(r == Ok(EtherType(ET_IPV4)));
+        match &h {
+            NetHeaders::Ipv4(b, e) => {
+                assert!(b.protocol.0 == if has { N_AUTH } else { n });
+                assert!(*e == v4_exts(has, n, spi, seq, tag));
+                assert!(e.next_header(b.protocol) == Ok(IpNumber(n)));
+            }
+            _ => panic!("variant changed"),
+        }
+        assert!(h.header_len() == if has { 36 } else { 20 });
+        witness!(has, "v4_auth");
+    } else if which == 1 {
+        assume(!is_ext_number(n));
+        let s = spec(presence_any());
+        let mut h = NetHeaders::Ipv6(ipv6_base(any()), build(&s));
+        let r = h.try_set_next_headers(IpNumber(n));
+        assert!(r == Ok(EtherType(ET_IPV6)));
+        match &h {
+            NetHeaders::Ipv6(b, e) => {
+                let mut expect_first = n;
+                let mut linked = s;
+                each6!(i => {
+                    if s.present[5 - i] {
+                        linked.link[5 - i] = expect_first;
+                        expect_first = SLOT_NUM[5 - i];
+                    }
+                });
+                assert!(b.next_header.0 == expect_first);
+                assert!(same_set(e, &linked));
+                assert!(e.next_header(b.next_header) == Ok(IpNumber(n)));
+            }
+            _ => panic!("variant changed"),
+        }
+        assert!(h.header_len() == 40 + total_len(&s));
+        witness!(s.present[S_FDEST] && s.present[S_HBH], "v6_chain");
+    } else {
+        let arp = match ArpPacket::new(
+            ArpHardwareId(any()),
+            EtherType(any()),
+            ArpOperation(any()),
+            &[1, 2],
+            &[3],
+            &[4, 5],
+            &[6],
+        ) {
+            Ok(a) => a,
+            Err(_) => panic!("matching address sizes are valid"),
+        };
+        let mut h = NetHeaders::Arp(arp.clone());
+        let r = h.try_set_next_headers(IpNumber(n));
+        assert!(r == Err(err::net::NetSetNextHeaderError::ArpHeader));
+        assert!(h == NetHeaders::Arp(arp));
+        witness!(true, "arp_refused");
+    }
+}
+
+crate::harnesses! {
+    c12_stub_raw_to_bytes = stub_raw_to_bytes; unwind 4,
+    c12_stub_auth_to_bytes = stub_auth_to_bytes; unwind 1018,
+    c12_v6_link_order = v6_link_order; unwind 7,
+    c12_v6_walk_any = v6_walk_any; unwind 7,
+    #[kani::stub(etherparse::Ipv6RawExtHeader::to_bytes, crate::c12::raw_to_bytes_model)]
+    #[kani::stub(etherparse::IpAuthHeader::to_bytes, crate::c12::auth_to_bytes_model)]
+    c12_v6_write_verdict = v6_write_verdict; unwind 7,
+    c12_v6_write_verdict_noauth_real = v6_write_verdict_noauth_real; unwind 7,
+    #[kani::stub(etherparse::Ipv6RawExtHeader::to_bytes, crate::c12::raw_to_bytes_model)]
+    #[kani::stub(etherparse::IpAuthHeader::to_bytes, crate::c12::auth_to_bytes_model)]
+    c12_v6_write_bytes = v6_write_bytes; unwind 7,
+    c12_v6_decode_empty = v6_decode_empty; unwind 2,
+    c12_v6_decode_hbh = v6_decode_hbh; unwind 2,
+    c12_v6_decode_dest = v6_decode_dest; unwind 3,
+    c12_v6_decode_auth = v6_decode_auth; unwind 3,
+    c12_v4_chain = v4_chain; unwind 1018,
+    c12_v4_decode = v4_decode; unwind 8,
+    #[kani::stub(etherparse::IpAuthHeader::to_bytes, crate::c12::auth_to_bytes_model)]
+    c12_ip_headers_v4 = ip_headers_v4; unwind 7,
+    c12_ip_headers_v6 = ip_headers_v6; unwind 7,
+    #[kani::stub(etherparse::Ipv6RawExtHeader::to_bytes, crate::c12::raw_to_bytes_model)]
+    #[kani::stub(etherparse::IpAuthHeader::to_bytes, crate::c12::auth_to_bytes_model)]
+    c12_ip_headers_v6_write_full = ip_headers_v6_write_full; unwind 7,
+    #[kani::stub(etherparse::Ipv6RawExtHeader::to_bytes, crate::c12::raw_to_bytes_model)]
+    #[kani::stub(etherparse::IpAuthHeader::to_bytes, crate::c12::auth_to_bytes_model)]
+    c12_ip_headers_v6_write_mid = ip_headers_v6_write_mid; unwind 7,
+    #[kani::stub(etherparse::Ipv6RawExtHeader::to_bytes, crate::c12::raw_to_bytes_model)]
+    #[kani::stub(etherparse::IpAuthHeader::to_bytes, crate::c12::auth_to_bytes_model)]
+    c12_ip_headers_v6_write_none = ip_headers_v6_write_none; unwind 7,
+    c12_net_headers = net_headers; unwind 7,
+}
+
+// ------------------------------------------------------------------------------------------
+// oracle self-validation (native `cargo test`; NOT a deciding technique, nothing depends on it)
+// ------------------------------------------------------------------------------------------
+
+#[cfg(all(test, not(kani)))]
+mod selfcheck {
+    use super::*;
+
+    const ALPHABET: [u8; 6] = [0, 43, 44, 51, 60, 17];
+
+    /// every presence pattern x every link / first number from a small alphabet
+    #[test]
+    fn exhaustive_small_alphabet() {
+        crate::sym::load_fuzz(1);
+        let mut decoded = 0u64;
+        let mut total = 0u64;
+        for p in 0u8..64 {
+            if p & 32 != 0 && p & 4 == 0 {
+                continue;
+            }
+            for code in 0..6usize.pow(7) {
+                let mut c = code;
+                let mut link = [0u8; 6];
+                for k in 0..6 {
+                    link[k] = ALPHABET[c % 6];
+                    c /= 6;
+                }
+                let first = ALPHABET[c % 6];
+                let s = Spec {
+                    present: [p & 1 != 0, p & 2 != 0, p & 4 != 0, p & 8 != 0, p & 16 != 0, p & 32 != 0],
+                    link,
+                    tag: [1, 2, 3, 4, 5, 6],
+                    frag_off: (code % 3) as u16 * 77,
+                    frag_mf: code % 2 == 1,
+                    frag_id: 0x01020304,
+                    spi: 0x11121314,
+                    seq: 0x21222324,
+                };
+                total += 1;
+                let _ = check_walk(&s, first);
+                check_write_verdict(&s, first);
+                check_write_bytes(&s, first);
+                let w = ref_walk(&s, first);
+                if consistent(&s, &w) && !is_chain_number(w.end) {
+                    check_decode::<6>(&s, first);
+                    decoded += 1;
+                }
+                if first == 17 {
+                    let _ = check_link_order(&s, 17);
+                }
+            }
+        }
+        assert!(decoded > 1000);
+        println!("{} chains, {} consistent ones decoded", total, decoded);
+    }
+}
